@@ -19,6 +19,7 @@ from ..docsuite import FLOW_FORMATS, MULTI, build_jobs, run_suite, validate_with
 FINDING_DEV = {
     "KF-C02-08": "Rtf!DeletedLeaks",
     "KF-C02-10": "Xlsx!UnnamedHeaderPlaceholder",
+    "KF-C02-11": "Odt!TextboxParagraphsGlued",
 }
 
 
@@ -36,7 +37,7 @@ def docx_walk_model(ctx, traces):
     if r.violated:
         ctx.v.violation(what="DocxWalk.tla: the modelled DOCX walk violates Fidelity on the specification "
                              "(model and Doc.tla disagree)", observed=r.output[-1500:])
-    for dv in ("Docx!TabBreakDropped", "Docx!BlockSdtLost", "Docx!NestedTableRepeated"):
+    for dv in ("Docx!TabBreakDropped", "Docx!BlockSdtLost", "Docx!NestedTableRepeated", "Docx!TextboxParagraphsGlued"):
         rs = run_tlc("DocxWalkCheck", cfg.replace("WalkDev = {}", f'WalkDev = {{"{dv}"}}'), scratch=ctx.scratch,
                      env={"DOCS_FILE": str(docs_file)}, expect_fail=True)
         ctx.ev.tlc(f"DocxWalkCheck sensitivity: pre-fix step {dv} must violate Fidelity", rs, note="expected violation")
